@@ -475,6 +475,9 @@ def counter_form(ctx, b, o, bi, t, alloc_n):
     # no path from loop header to the increment avoiding the write
     w2 = must_pass(b, h, {inc[0]}, {bi})
     if w2 is not None:
+        if alloc_n[0] == "CountFiltered":
+            return ("VIOLATED", "the slot counter advances also for elements that are NOT written (it counts positions in the walked list) while the array was allocated for the filtered count %s: "
+                    "every skipped element shifts the later entries by one slot and the last ones land behind the array" % LA.show_len(alloc_n))
         return "the counter can be incremented without a write"
     # loop iterates over the counted collection and write guard == count predicate
     if alloc_n[0] == "CountFiltered":
